@@ -41,12 +41,30 @@ HEADER_NOGEN = ("From Shk Require Import Base.Prelude Model.Fsm Model.Meaning Co
                 "From Coq Require Import String.\nOpen Scope string_scope.\n")
 
 
+NOTES = {}
+
+
 def translate(bins):
-    """Regenerate coq/gen/FsmTables.v from the current source.  Returns
-    (ok, message)."""
-    rc, out = vlib.run([bins["gofsm2v"], os.path.join(vlib.REPO, "pkg/cmd/pred_fsm.go")], timeout=60)
+    """Regenerate coq/gen/FsmTables.v from the current tree: the tables are
+    dumped from the automata registry of a binary built from it (fsmdump, via
+    the hook VerifAutomataTables).  The source-level translator gofsm2v (go/ast
+    over pred_fsm.go) is run as a cross-check: when it can render the file its
+    tables must be the ones the binary uses; when it cannot (the initialiser
+    was restructured) that is recorded, not alarmed on, because the theorems
+    are then still checked against the tables the code really uses.
+    Returns (ok, message); NOTES holds the cross-check outcome."""
+    NOTES.clear()
+    rc, out = vlib.run([bins["fsmdump"]], timeout=60)
     if rc != 0:
-        return False, out
+        return False, "fsmdump failed: " + out
+    rc_c, canon_rt = vlib.run([bins["fsmdump"], "-canon"], timeout=60)
+    rc_a, canon_src = vlib.run([bins["gofsm2v"], "-canon", os.path.join(vlib.REPO, "pkg/cmd/pred_fsm.go")], timeout=60)
+    if rc_a != 0:
+        NOTES["source_translator"] = "gofsm2v could not render pred_fsm.go (%s); tables taken from the running code only" % " ".join(canon_src.split())[:300]
+    elif rc_c == 0 and sorted(canon_rt.strip().split("\n")) != sorted(canon_src.strip().split("\n")):
+        NOTES["source_translator"] = "the composite literals of pred_fsm.go differ from the registry at run time; the run-time tables are the ones checked"
+    else:
+        NOTES["source_translator"] = "gofsm2v (go/ast over pred_fsm.go) renders the same tables as the run-time registry"
     with vlib.flock("gen-c01"):
         vlib.write_if_changed(os.path.join(GEN, "FsmTables.v"), out)
         rc, cout = vlib.coqc(os.path.join(GEN, "FsmTables.v"), timeout=300)
@@ -91,7 +109,7 @@ def counterexamples():
 def run(tier, seed):
     res = vlib.Result(PID, tier, seed, level="proof")
     res.assumptions = [
-        "translator gofsm2v (go/ast over pred_fsm.go; refuses unknown constructs) is trusted to render the composite literals faithfully; the correspondence cases re-check tables + reporting glue against the real code",
+        "translator fsmdump (hook VerifAutomataTables: the automata map of the binary built from the current tree, sorted by key) is trusted to render the tables faithfully; gofsm2v (go/ast over pred_fsm.go; refuses unknown constructs) cross-checks them against the source literals when it can; the correspondence cases re-check tables + reporting glue against the real code",
         "processFsmStateChange's classification by state NAME and the reset edge are hand-modelled (Model/Fsm.v step_report) and tied by the hook-driven cases",
         "'eventually always' is read as false^i true^(j+1) (it becomes true and then stays true)",
     ]
@@ -101,7 +119,7 @@ def run(tier, seed):
                       {"kind": "proof-obligation", "detail": detail}, no_input=True)
         return res.finish()
     try:
-        bins = vlib.build_bins(["c01", "gofsm2v"])
+        bins = vlib.build_bins(["c01", "gofsm2v", "fsmdump"])
     except vlib.BuildError as e:
         res.violation(None, "harness does not build against the current tree",
                       {"kind": "correspondence-build", "what": e.what, "output": e.output[-4000:]}, no_input=True)
@@ -111,7 +129,7 @@ def run(tier, seed):
     t_ok, t_out = translate(bins)
     obl_ok, extras, ce_notes = False, [], {}
     if not t_ok:
-        broken.append("translator gofsm2v cannot render pred_fsm.go: " + t_out.strip()[-500:])
+        broken.append("the automata registry cannot be rendered (fsmdump / coqc of FsmTables.v): " + t_out.strip()[-500:])
     else:
         obl_ok, o_out = obligations()
         if not obl_ok:
@@ -121,7 +139,8 @@ def run(tier, seed):
     res.coverage["discharged"] += 2 if obl_ok else 0
     res.coverage["theorems"] += ["c01_tables_pass (per run, reflective, over translated tables)",
                                  "c01_modalities_judge_by_meaning (per run)"]
-    res.coverage["trusted_base"].append("translator harness/gofsm2v (go/ast -> coq/gen/FsmTables.v)")
+    res.coverage["trusted_base"].append("translator harness/fsmdump (automata registry of the binary built from the current tree -> coq/gen/FsmTables.v); cross-check harness/gofsm2v (go/ast over pred_fsm.go)")
+    res.coverage["translator_cross_check"] = NOTES.get("source_translator")
 
     out = tempfile.mkdtemp(prefix="shk-c01-")
     try:
